@@ -446,6 +446,9 @@ type GenCfg struct {
 	Hostile    int  // per mille of account variable values that are not account names
 	Garbage    int  // per mille of variable values that are arbitrary text
 	LeadSaves  bool // the script starts with one to three save statements
+	SmallPool  bool // only three account names: repetition within one source becomes the norm
+	Directed   string // "" or the name of a directed template (gen_directed.go)
+	KeptBias   bool // ordered destinations keep amounts close to partial sums of the source balances
 }
 
 var accountPool = []string{"a", "b", "c", "d", "users:001", "e-x_1"}
@@ -470,6 +473,7 @@ type Gen struct {
 	flag    bool
 	nvar    int
 	amounts []*big.Int // interesting amounts seen so far (balances, caps)
+	partials []*big.Int // partial sums of what the sources of the current send can give
 }
 
 func NewGen(r *Rand, cfg GenCfg) *Gen {
@@ -515,12 +519,34 @@ func (g *Gen) account() string {
 	if g.r.Intn(1000) < g.cfg.WorldProb {
 		return "world"
 	}
+	if g.cfg.SmallPool {
+		return g.r.Pick(accountPool[:3])
+	}
 	return g.r.Pick(accountPool)
 }
 
 // portionText returns a literal spelling of num/den (den > 0), either as a ratio or, when
 // possible, as a percentage.
 func (g *Gen) portionText(num, den *big.Int) string {
+	if g.r.Chance(1, 12) {
+		// same value, written with very long numerals (beyond 64 bits)
+		if g.r.Chance(1, 2) {
+			f := new(big.Int).Add(pow2(uint(60+g.r.Intn(10))), bi(int64(g.r.Intn(5))))
+			return new(big.Int).Mul(num, f).String() + "/" + new(big.Int).Mul(den, f).String()
+		}
+		for k := 0; k <= 3; k++ {
+			scale := new(big.Int).Exp(bi(10), bi(int64(k+2)), nil)
+			q, m := new(big.Int).QuoRem(new(big.Int).Mul(num, scale), den, new(big.Int))
+			if m.Sign() == 0 {
+				s := q.String()
+				for len(s) < k+1 {
+					s = "0" + s
+				}
+				zeros := strings.Repeat("0", 15+g.r.Intn(8))
+				return s[:len(s)-k] + "." + s[len(s)-k:] + zeros + "%"
+			}
+		}
+	}
 	// percentage when den divides 10^k*100 for a small k
 	if g.r.Chance(1, 2) {
 		for k := 0; k <= 3; k++ {
@@ -773,6 +799,12 @@ func (g *Gen) ratio(num, den *big.Int) *GExpr {
 
 // cap / overdraft expressions: monetary of the statement's asset, around the known amounts
 func (g *Gen) capExpr(depth int) *GExpr {
+	if g.cfg.KeptBias && len(g.partials) > 0 && g.r.Chance(1, 2) {
+		n := new(big.Int).Add(g.partials[g.r.Intn(len(g.partials))], bi(int64(g.r.Intn(5)-2)))
+		if n.Sign() >= 0 && n.IsInt64() {
+			return &GExpr{Kind: XMonetary, A: &GExpr{Kind: XAsset, S: g.asset}, B: &GExpr{Kind: XNumber, N: n}}
+		}
+	}
 	if g.r.Chance(1, 4) {
 		return g.exprOf("monetary", depth)
 	}
@@ -874,7 +906,7 @@ func (g *Gen) source(depth int, sendAll bool) *GSource {
 }
 
 func (g *Gen) kod(depth int) *GKod {
-	if g.r.Chance(1, 4) {
+	if g.r.Chance(1, 4) || (g.cfg.KeptBias && g.r.Chance(1, 3)) {
 		return &GKod{Kept: true}
 	}
 	return &GKod{To: g.dest(depth - 1)}
@@ -1019,6 +1051,17 @@ func (g *Gen) sendStmt() *GStmt {
 		}
 		st.Sent = &GSent{E: e}
 	}
+	// partial sums of the positive balances of the source accounts, in order: caps and kept
+	// amounts close to them split shares across senders in every possible way
+	g.partials = nil
+	run := new(big.Int)
+	for _, a := range g.sourceAccounts(st.Src) {
+		if b, ok := g.bal[a][g.asset]; ok && b.Sign() > 0 {
+			g.partials = append(g.partials, new(big.Int).Set(b))
+			run = new(big.Int).Add(run, b)
+			g.partials = append(g.partials, new(big.Int).Set(run))
+		}
+	}
 	st.Dst = g.dest(g.cfg.MaxDepth)
 	return st
 }
@@ -1065,27 +1108,79 @@ func (g *Gen) callStmt() *GStmt {
 	return &GStmt{Kind: StCall, Call: c}
 }
 
+// sourceAccounts lists the literal (or variable-held) account names of the leaves of a source.
+func (g *Gen) sourceAccounts(s *GSource) []string {
+	var out []string
+	var walk func(s *GSource)
+	walk = func(s *GSource) {
+		switch s.Kind {
+		case SrcAccount, SrcOverdraft:
+			a := ""
+			if s.E.Kind == XAccount {
+				a = s.E.S
+			} else if s.E.Kind == XVar {
+				a = g.rawVars[s.E.S]
+			}
+			if a != "" && a != "world" {
+				out = append(out, a)
+			}
+		case SrcInorder:
+			for _, x := range s.Subs {
+				walk(x)
+			}
+		case SrcAllot:
+			for _, it := range s.Items {
+				walk(it.From)
+			}
+		case SrcCapped:
+			walk(s.From)
+		}
+	}
+	walk(s)
+	return out
+}
+
 // Program generates a whole script according to the configuration.
 func (g *Gen) Program() *GProgram {
 	g.asset = "USD"
 	g.flag = g.r.Chance(1, 2)
 	n := 1 + g.r.Intn(g.cfg.MaxStmts)
-	if g.cfg.LeadSaves {
-		k := 1 + g.r.Weighted(50, 35, 15)
-		for i := 0; i < k; i++ {
-			g.prog.Stmts = append(g.prog.Stmts, g.saveStmt())
-		}
-	}
-	if g.cfg.OneSend {
+	if g.cfg.OneSend || g.cfg.LeadSaves {
+		// the send is generated first so that the saves that precede it can aim at its sources
+		send := g.sendStmt()
+		sendAsset := g.asset
 		nsave := 0
-		if g.cfg.Saves {
+		if g.cfg.LeadSaves {
+			nsave = 1 + g.r.Weighted(50, 35, 15)
+		} else if g.cfg.Saves {
 			nsave = g.r.Weighted(60, 30, 10)
 		}
+		targets := g.sourceAccounts(send.Src)
 		for i := 0; i < nsave; i++ {
-			g.prog.Stmts = append(g.prog.Stmts, g.saveStmt())
+			sv := g.saveStmt()
+			if len(targets) > 0 && g.r.Chance(3, 4) {
+				a := g.r.Pick(targets)
+				g.asset = sendAsset
+				sv.Acct = &GExpr{Kind: XAccount, S: a}
+				if !sv.Sent.All {
+					n := bi(int64(g.r.Intn(12)))
+					if b, ok := g.bal[a][sendAsset]; ok && g.r.Chance(2, 3) {
+						n = new(big.Int).Add(new(big.Int).Abs(b), bi(int64(g.r.Intn(7)-3)))
+						if n.Sign() < 0 || !n.IsInt64() {
+							n = bi(int64(g.r.Intn(12)))
+						}
+					}
+					sv.Sent = &GSent{E: &GExpr{Kind: XMonetary, A: &GExpr{Kind: XAsset, S: sendAsset}, B: &GExpr{Kind: XNumber, N: n}}}
+				} else {
+					sv.Sent = &GSent{All: true, E: &GExpr{Kind: XAsset, S: sendAsset}}
+				}
+			}
+			g.prog.Stmts = append(g.prog.Stmts, sv)
 		}
-		g.prog.Stmts = append(g.prog.Stmts, g.sendStmt())
-		return g.prog
+		g.prog.Stmts = append(g.prog.Stmts, send)
+		if g.cfg.OneSend {
+			return g.prog
+		}
 	}
 	for i := 0; i < n; i++ {
 		w := []int{70, 0, 0}
